@@ -220,7 +220,7 @@ def h_io(nrows):
 def configs(tier, seed):
     q = tier == 'quick'
     cfgs = []
-    for nrows in ((2, 3, 4) if q else (2, 3, 4, 5, 6)):
+    for nrows in ((2, 3, 4) if q else (2, 3, 4, 5, 6, 8)):
         cfgs.append(Config('get_av rows=%d nq=%d micron cm2/g' % (nrows, 1 if nrows > 3 else 2), h_av(nrows, 1 if nrows > 3 else 2), 1500))
     cfgs.append(Config('get_av rows=3 nq=1 table in m, m2/kg, query in cm', h_av(3, 1, 'm', 'm2/kg', 'cm'), 1500))
     cfgs.append(Config('get_av rows=2 nq=1 table in cm, query in AU', h_av(2, 1, 'cm', 'cm2/g', 'AU'), 1500))
